@@ -18,6 +18,8 @@ fn main() {
     let prop = args.get("prop", "C16");
     let table = args.get("table", "impls");
     let mut rep = Rep::new(&prop, args.num("shard", 0), args.num("nshards", 1), args.m.get("only").cloned());
+    rep.mult = args.num("shardmult", 1).max(1);
+    rep.seed = args.num("seed", 0);
     let mut extra = J::obj();
     match table.as_str() {
         "impls" => {
